@@ -16,5 +16,8 @@ for f in .work/gen.tmp/*.lean; do
   cmp -s "$f" "lean/TabulaModel/Gen/$(basename "$f")" || cp "$f" "lean/TabulaModel/Gen/$(basename "$f")"
 done
 cp .work/gen.tmp/facts.json .work/facts.json
+{ echo 'import TabulaModel.Util'; for f in lean/TabulaModel/Props/C*.lean; do echo "import TabulaModel.Props.$(basename "$f" .lean)"; done; } > lean/TabulaModel.lean.new
+cmp -s lean/TabulaModel.lean.new lean/TabulaModel.lean || cp lean/TabulaModel.lean.new lean/TabulaModel.lean
+rm -f lean/TabulaModel.lean.new
 (cd lean && lake build TabulaModel driver)
 echo setup-ok
